@@ -207,6 +207,9 @@ func (e *Engine) resolveType(x *FnExec, pkg *types.Package, te TypeExpr) (types.
 		return types.Typ[types.UnsafePointer], "Ref", nil
 	case "mathint":
 		return nil, "Int", nil
+	case "blob":
+		x.q.declareSortOnce("Blob")
+		return nil, "Blob", nil
 	case "set_ref":
 		return nil, "(Array Ref Bool)", nil
 	case "set_str":
